@@ -272,7 +272,7 @@ package server
 //@ assigns t.state, closed(t.becameHealthy), everHealthy(t), LoadBalancer.healthy
 //@ ensures[C01] first_success_promotes: old(t.state) == TargetStateAdding && success ==> t.state == TargetStateHealthy && closed(t.becameHealthy)
 //@ ensures[C01] failure_never_promotes: !success ==> t.state != TargetStateHealthy && closed(t.becameHealthy) == old(closed(t.becameHealthy)) && everHealthy(t) == old(everHealthy(t))
-//@ ensures[C01] adding_stays_adding_on_failure: old(t.state) == TargetStateAdding && !success ==> t.state == TargetStateAdding
+//@ ensures[C01,C17] adding_stays_adding_on_failure: old(t.state) == TargetStateAdding && !success ==> t.state == TargetStateAdding
 //@ ensures[C09] failure_demotes: old(t.state) == TargetStateHealthy && !success ==> t.state == TargetStateUnhealthy
 //@ ensures[C09] success_recovers: old(t.state) == TargetStateUnhealthy && success ==> t.state == TargetStateHealthy
 //@ ensures[C09] notifies_on_change: t.state != old(t.state) && !isnil(t.stateConsumer) ==> emitted(StateChanged(t.stateConsumer, t))
@@ -528,10 +528,11 @@ package server
 //@ requires r.services != nil
 //@ attr blocks
 //@ assigns `os.File`.content
-//@ may_emit ListServices, CreateTemp, JsonEncode, FileClose, FsRename, FileRemove, MarshalService, FsTruncate
+//@ may_emit ListServices, CreateTemp, JsonEncode, JsonEncoded, FileClose, FileClosed, FsRename, FileRemove, MarshalService, FsTruncate
 //@ ensures[C12,C11] never_truncates_the_live_file: none(FsTruncate)
 //@ ensures[C12,C11] only_a_rename_replaces_the_state_file: all(FsRename, $1 == r.statePath) && all(CreateTemp, $1 == dirOf(r.statePath))
 //@ ensures[C12,C11] complete_before_it_replaces: first(JsonEncode(_, _), FileClose(_)) && first(FileClose(_), FsRename(_, _, _)) && first(ListServices(_), JsonEncode(_, _)) && count(FsRename(_, _, _)) <= 1
+//@ ensures[C12,C11] replaces_only_with_a_completely_written_file: emitted(FsRename(_, _, _)) ==> emitted(JsonEncoded(_, true)) && none(JsonEncoded(_, false)) && emitted(FileClosed(_, true)) && none(FileClosed(_, false))
 //@ ensures[C12,C11] success_means_replaced: result == nil ==> count(FsRename(_, _, _)) == 1 && emitted(FsRename(_, _, true)) && count(ListServices(_)) == 1
 //@ ensures[C12,C11] failure_leaves_the_old_file: result != nil ==> none(FsRename(_, _, true))
 //@ ensures[C12] snapshots_are_serialized: first(Lock(r, lockid("server.Router.snapshotLock")), ListServices(_)) && !held(r.snapshotLock) && (result == nil ==> first(FsRename(_, _, _), Unlock(r, lockid("server.Router.snapshotLock"))))
@@ -542,7 +543,7 @@ package server
 //@ requires s != nil && r.services != nil && s.active != nil && s.pauseController != nil && !isnil(s.middleware)
 //@ attr blocks
 //@ assigns Router.services, ServiceMap.requestServiceMap, mapsof(ServiceMap.services), Service.options, `os.File`.content
-//@ may_emit Snapshot, SetService, CheckAvail, RebuildTable, ListServices, CreateTemp, JsonEncode, FileClose, FsRename, FileRemove, MarshalService, FsTruncate
+//@ may_emit Snapshot, SetService, CheckAvail, RebuildTable, ListServices, CreateTemp, JsonEncode, JsonEncoded, FileClose, FileClosed, FsRename, FileRemove, MarshalService, FsTruncate
 //@ emits Install(r, s) when err == nil
 //@ ensures[C05,C06] conflicting_pair_rejected: err != nil ==> err == ErrorHostInUse && none(SetService) && none(RemoveService) && none(RebuildTable)
 //@ ensures[C05,C02] installed_in_one_critical_section: err == nil ==> count(SetService(_, _)) == 1 && emitted(SetService(_, s)) && count(Lock(r, lockid("server.Router.serviceLock"))) == 1 && first(Lock(r, lockid("server.Router.serviceLock")), SetService(_, _)) && first(SetService(_, _), Unlock(r, lockid("server.Router.serviceLock")))
@@ -729,7 +730,7 @@ package server
 
 //@ func (*server.Buffer).discardSpill
 //@ assigns nothing
-//@ may_emit FileClose, FileRemove
+//@ may_emit FileClose, FileClosed, FileRemove
 //@ emits DiscardSpill(b)
 //@ ensures[C14] spill_closed_and_removed: b.diskBuffer != nil ==> emitted(FileClose(b.diskBuffer)) && emitted(FileRemove(fileName(ref(b.diskBuffer)))) && first(FileClose(_), FileRemove(_))
 //@ ensures[C14] nothing_without_spill: b.diskBuffer == nil ==> none(FileClose) && none(FileRemove)
@@ -740,7 +741,7 @@ package server
 
 //@ func (*server.Buffer).Close
 //@ assigns onceDone
-//@ may_emit FileClose, FileRemove, DiscardSpill
+//@ may_emit FileClose, FileClosed, FileRemove, DiscardSpill
 //@ emits CloseBuffer(b)
 //@ ensures[C14] spill_removed_exactly_once: err == nil && onceDone(oncePtr(b)) && (old(onceDone(oncePtr(b))) ==> none(DiscardSpill)) && (!old(onceDone(oncePtr(b))) ==> count(DiscardSpill(b)) == 1)
 
@@ -1042,7 +1043,7 @@ package server
 //@ requires r.services != nil
 //@ attr blocks
 //@ assigns Service.rolloutController, `os.File`.content
-//@ may_emit Snapshot, RolloutSplit, ListServices, CreateTemp, JsonEncode, FileClose, FsRename, FileRemove, MarshalService, FsTruncate
+//@ may_emit Snapshot, RolloutSplit, ListServices, CreateTemp, JsonEncode, JsonEncoded, FileClose, FileClosed, FsRename, FileRemove, MarshalService, FsTruncate
 //@ ensures[C06,C10] unknown_service_rejected: none(RolloutSplit) ==> err == ErrorServiceNotFound
 //@ ensures[C12,C11,C03,C05,C06,C07,C08,C10] snapshot_taken: last_is(Snapshot(r))
 //@ ensures[C17] returns_without_waiting: now == old(now)
@@ -1052,7 +1053,7 @@ package server
 //@ requires r.services != nil
 //@ attr blocks
 //@ assigns Service.rolloutController, `os.File`.content
-//@ may_emit Snapshot, RolloutSplit, ListServices, CreateTemp, JsonEncode, FileClose, FsRename, FileRemove, MarshalService, FsTruncate
+//@ may_emit Snapshot, RolloutSplit, ListServices, CreateTemp, JsonEncode, JsonEncoded, FileClose, FileClosed, FsRename, FileRemove, MarshalService, FsTruncate
 //@ ensures[C12,C11,C03,C05,C06,C07,C08,C10] snapshot_taken: last_is(Snapshot(r))
 //@ ensures[C17] returns_without_waiting: now == old(now)
 
@@ -1224,3 +1225,8 @@ package server
 //@ ensures[C20] a_service_without_targets_is_not_listed: arg1.active == nil ==> haskey(result, arg0) == old(haskey(result, arg0))
 //@ ensures[C20] other_rows_untouched: forall n string :: n != arg0 ==> haskey(result, n) == old(haskey(result, n))
 //@ ensures[C20] keeps_iterating: cont
+
+//@ func server.NewServiceMap
+//@ assigns nothing
+//@ ensures[C04,C05,C11] empty_table: result != nil && fresh(result) && result.services != nil && result.requestServiceMap != nil && repInv(result) && forall n string :: !haskey(result.services, n)
+//@ emits NewServiceMap(result)
